@@ -74,6 +74,7 @@ def _worker(args):
         "runs": 0, "faults": Counter(), "probes": Counter(), "sigs": set(),
         "viol": {}, "sim_us": 0, "steps": 0, "nontrivial": 0,
         "digests": {}, "harness": None, "samples": [], "nondet": [],
+        "tags": set(),
     }
     try:
         all_cpus = None
@@ -118,6 +119,8 @@ def _worker(args):
             if res.get("nontrivial"):
                 out["nontrivial"] += 1
                 out["sigs"].add(derive_seed(res["sig"]))
+            for tag in res.get("tags", ()):
+                out["tags"].add(tag)
             for key, detail in keyed_violations(spec, res):
                 lst = out["viol"].setdefault(key, [])
                 if len(lst) < max_keep:
@@ -144,7 +147,7 @@ def explore(spec, seed, n_runs, workers=None, selftest_every=0,
     merged = {
         "runs": 0, "faults": Counter(), "probes": Counter(), "sigs": set(),
         "viol": {}, "sim_us": 0, "steps": 0, "nontrivial": 0,
-        "digests": {}, "nondet": [], "workers": workers,
+        "digests": {}, "nondet": [], "workers": workers, "tags": set(),
     }
     jobs = [(seed, w, n_runs, workers, selftest_every, 8)
             for w in range(workers)]
@@ -172,6 +175,7 @@ def explore(spec, seed, n_runs, workers=None, selftest_every=0,
         merged["nontrivial"] += r["nontrivial"]
         merged["digests"].update(r["digests"])
         merged["nondet"] += r["nondet"]
+        merged["tags"] |= r["tags"]
         for oid, lst in r["viol"].items():
             merged["viol"].setdefault(oid, []).extend(lst)
     for oid in merged["viol"]:
@@ -392,6 +396,9 @@ def _explore_main(spec, check_file, tier, seed, args, sw):
         "known_findings_reobserved": {k: v[0] for k, v in known_seen.items()},
         "new_violations": samples_v,
     }
+    if merged["tags"]:
+        groups = Counter(t.split(":", 1)[0] for t in merged["tags"])
+        coverage["distinct_by_tag"] = dict(sorted(groups.items()))
     coverage.update(extra_cov)
     report.write_evidence(prop, tier, seed, coverage, wall,
                           len(new_violation_paths), spec.assumptions)
